@@ -31,6 +31,17 @@ def changed(sc, r, k):
 
 def judge_C16(mm):
     """Props/C16.lean on the implementation's own response: debug off, preflight."""
+    if mm['case'].startswith('h.serve\t'):
+        # the documented state machine says debug is off and the preflight fails (model: 403, nothing but Vary)
+        i = runner.split_resp(mm['impl'])
+        r = runner.parse_resp(i[0]) if i else None
+        if r is None:
+            return None
+        leaked = [bytes.fromhex(k).decode() for k in r['hdrs'] if k in runner.CORS_RESP]
+        if r['status'] != '403' or leaked:
+            return ('after this history the documented debug mode is off, yet the failing preflight is answered with status %s and %s'
+                    % (r['status'], leaked or 'no CORS header'))
+        return None
     if not mm['case'].startswith('serve\t'):
         return None
     sc, r, bits, cfg = _ctx(mm)
@@ -64,6 +75,17 @@ def judge_C16(mm):
 
 def judge_C03(mm):
     """Props/C03.lean (C03Spec) on the implementation's own response; 'allowed' is the harness's decision bit."""
+    if mm['case'].startswith('h.serve\t'):
+        # history: the model carries the configuration in force; it emits no CORS header, the implementation does
+        i, m = runner.split_resp(mm['impl']), runner.split_resp(mm['model'])
+        ri, rm = (runner.parse_resp(i[0]) if i else None), (runner.parse_resp(m[0]) if m else None)
+        if ri is None or rm is None:
+            return None
+        extra = [bytes.fromhex(k).decode() for k in ri['hdrs'] if k in runner.CORS_RESP and k not in rm['hdrs']]
+        if extra and not any(k in rm['hdrs'] for k in runner.CORS_RESP):
+            return ('after this history the configuration in force gives this request no Access-Control-* header at all, '
+                    'yet the response carries %s' % extra)
+        return None
     if not mm['case'].startswith('serve\t'):
         return None
     sc, r, bits, cfg = _ctx(mm)
@@ -178,6 +200,18 @@ def _defect(sb):
                 return 'bad port ' + port.decode('latin1')
             if (m.group(1) == b'http' and port == b'80') or (m.group(1) == b'https' and port == b'443'):
                 return 'default port'
+    else:
+        mb = re.match(rb'^\[([^\]]*)\]', rest)
+        if mb:
+            lit = mb.group(1)
+            if b'%' in lit:
+                return 'zoned IPv6 literal'
+            if re.match(rb'^::ffff:[0-9]+\.[0-9]+\.[0-9]+\.[0-9]+$', lit) or re.match(rb'^(0:){5}ffff:', lit):
+                return 'IPv4-mapped IPv6 literal'
+            if re.search(rb'(^|:)0[0-9a-f]', lit) and b'.' not in lit:
+                return 'non-canonical IPv6 literal (leading zero)'
+    if re.match(rb'^\*\.([0-9]+\.){3}[0-9]+(:|$)', rest) or rest.startswith(b'*.['):
+        return 'wildcard before an IP'
     return None
 
 
